@@ -396,7 +396,7 @@ MANIFEST = {
     "category": "other",
     "text": "Static decision of structural independence and detachment of copy(): the result is deepcopy(self) on every path, taken while the "
             "parent link is cleared and restored on every exit; no class customises the copy protocol or mutates class-level containers; every "
-            "keyword override is applied to the copy. Does not decide value equality of copy and original. Rounds 4-5: the copy joins its new parent last (K7) and the override is not decided by truthiness (K8).",
+            "keyword override is applied to the copy. Does not decide value equality of copy and original. Rounds 4-5: the copy joins its new parent last (K7) and the override is not decided by truthiness (K8). Round 6: no id() values in object state (K9), overrides whose setter admits None are applied by presence (K8b).",
     "design_ref": "DESIGN.md §3 C18",
     "note": "Trusted: python ast; semantics of copy.deepcopy on plain instances.",
     "technique": "static analysis: def-use on BaseGeo.copy, swap-restore typestate on exceptional edges, package-wide class scans",
